@@ -159,6 +159,10 @@ __CPROVER_ensures((g_exc == 0 && ''' + SEL + ''' == $2->wi) ==> (''' + TPS + '''
 __CPROVER_ensures''' + resolved('m_query_responses', 'G_qr') + '''
 __CPROVER_ensures''' + resolved('m_malformed_messages', 'G_mm') + '''
 __CPROVER_ensures(g_exc == 0 ==> ($this->m_qr_read == 0 && $this->m_mm_read == 0))
+__CPROVER_ensures((g_exc == 0 && g_K == 3) ==> (g_kseen == 0 ? $this->base.m_query_responses.n == 0 : (g_kseen == 1 ==> (g_aseen && $this->base.m_query_responses.n == g_alen))))
+__CPROVER_ensures((g_exc == 0 && g_K == 5) ==> (g_kseen == 0 ? $this->base.m_malformed_messages.n == 0 : (g_kseen == 1 ==> (g_aseen && $this->base.m_malformed_messages.n == g_alen))))
+__CPROVER_ensures((g_exc == 0 && g_K == 4 && g_kseen == 0) ==> $this->base.m_address_event_counts.n == 0)
+__CPROVER_ensures((g_exc == 0 && g_K == 1) ==> (($this->base.m_block_statistics.has != 0) == (g_kseen > 0)))
 '''
 EXTRA_B = EXTRA + '#define VAL_HINTS_EQ(a, b) ((a).query_response_hints == (b).query_response_hints && (a).query_response_signature_hints == (b).query_response_signature_hints && (a).rr_hints == (b).rr_hints && (a).other_data_hints == (b).other_data_hints)\n'
 
@@ -178,6 +182,10 @@ def br_loops(ast, L, tf):
   __CPROVER_loop_invariant($this->base.m_query_responses.n < (1UL << 60) && $this->base.m_malformed_messages.n < (1UL << 60) && $this->base.m_address_event_counts.n < (1UL << 60))
   __CPROVER_loop_invariant(g_wts_qr == &$this->base.m_query_responses.wv.time_offset.val && g_wts_mm == &$this->base.m_malformed_messages.wv.time_offset.val)
   __CPROVER_loop_invariant($this->base.m_query_responses.wi == __CPROVER_loop_entry($this->base.m_query_responses.wi) && $this->base.m_malformed_messages.wi == __CPROVER_loop_entry($this->base.m_malformed_messages.wi))
+  __CPROVER_loop_invariant(g_K == 3 ==> (g_kseen == 0 ? $this->base.m_query_responses.n == 0 : (g_kseen == 1 ==> (g_aseen && $this->base.m_query_responses.n == g_alen))))
+  __CPROVER_loop_invariant(g_K == 5 ==> (g_kseen == 0 ? $this->base.m_malformed_messages.n == 0 : (g_kseen == 1 ==> (g_aseen && $this->base.m_malformed_messages.n == g_alen))))
+  __CPROVER_loop_invariant((g_K == 4 && g_kseen == 0) ==> $this->base.m_address_event_counts.n == 0)
+  __CPROVER_loop_invariant(g_K == 1 ==> (($this->base.m_block_statistics.has != 0) == (g_kseen > 0)))
 ''' % {'G': G, 'IDX': IDX, 'TPS': TPS})}
     if len(tf.loopinfo) != 2:
         raise LowerError('CdnsBlockRead::read: expected two range-for loops, found %d' % len(tf.loopinfo))
@@ -405,3 +413,111 @@ for which, fn, cntm in (('qr', 'read_generic_qr', 'm_qr_read'), ('mm', 'read_gen
                       post='  if (g_exc != 0) { CANARY("out-of-range index reachable"); }\n  if (g_exc == 0 && !a_end) { CANARY("record returned reachable"); }',
                       note='records are handed out in stored order, end is reported exactly after the last; every member of the presented record equals the stored '
                            'member (time = the resolved time), every index member is resolved through the bounds-checked accessor of its table, absent members stay absent'))
+
+# ---------------------------------------------------------------- CdnsBlockRead::read_blocktables (C08, C01: entry k of a table in the file gets index k; C03)
+def bt_members(lifted):
+    """k -> (table member, element record) of the k-th callback of read_blocktables, from the lowered callback bodies"""
+    out = {}
+    for lf in lifted:
+        m = re.match(r'CdnsBlockRead__read_blocktables__lambda(\d+)$', lf.cname)
+        if not m:
+            continue
+        mm = re.search(r'BlockTable_([A-Za-z]+?)__(?:add_value__p_\w+|add)\(&\(\(&this->base\)\)->(\w+),', lf.body)
+        if not mm:
+            raise LowerError('callback %s of read_blocktables does not store into a block table' % m.group(1))
+        out[int(m.group(1))] = (mm.group(2), mm.group(1))
+    return out
+
+
+def bti_contract(k):
+    def gen(ast, L, tf):
+        mem, rec = bt_members(L.lifted + [tf])[k] if k in bt_members(L.lifted + [tf]) else (None, None)
+        if mem is None:
+            raise LowerError('read_blocktables: callback %d not found' % k)
+        lv = '$1->base.' + mem
+        return '''
+__CPROVER_requires(__CPROVER_w_ok($1, sizeof(*$1)) && g_exc == 0)
+__CPROVER_requires(%(VP)s)
+__CPROVER_requires(%(lv)s.n == @N0 && @N0 < (1UL << 31))
+__CPROVER_assigns(%(lv)s, bt_%(rec)s__cur, g_bt_adds, %(G)s)
+__CPROVER_ensures(g_exc == 0 || g_exc == EXC_CdnsDecoderException || g_exc == EXC_CdnsDecoderEnd)
+__CPROVER_ensures(g_exc == 0 ==> (rd_depth == 1 && rd_topmap && !rd_expect_val && !rd_break_pending && !rd_bad && !rd_done1 && rd_cnt1 == @C0 + 1 && (rd_indef1 ? rd_left1 == @L0 : rd_left1 + 1 == @L0)))
+__CPROVER_ensures(g_exc == 0 ==> (rd_curkey == @K0 && g_kseen == @S0))
+__CPROVER_ensures(g_exc == 0 ==> %(lv)s.n == @N0 + rd_idx2)
+''' % {'lv': lv, 'VP': VALPOS, 'G': G, 'rec': rec}
+    return gen
+
+
+def bti_loops(k):
+    def gen(ast, L, tf):
+        mem, rec = bt_members(L.lifted + [tf])[k]
+        lv = 'cap->base.' + mem
+        return {1: '''
+  __CPROVER_assigns(length, %(lv)s, bt_%(rec)s__cur, g_bt_adds, %(G)s)
+  __CPROVER_loop_invariant(g_exc == 0 && !rd_bad && !rd_break_pending && rd_topmap && !rd_done1)
+  __CPROVER_loop_invariant(indef ? (rd_depth == 2 && rd_indef2) : (length > 0 ? (rd_depth == 2 && !rd_indef2 && rd_left2 == length) : (rd_depth == 1 && !rd_expect_val)))
+  __CPROVER_loop_invariant(rd_idx2 <= (1UL << 60) && %(lv)s.n == @N0 + rd_idx2)
+  __CPROVER_loop_invariant(rd_depth == 2 ? (rd_expect_val && rd_cnt1 == @C0 && rd_left1 == @L0) : (rd_cnt1 == @C0 + 1 && (rd_indef1 ? rd_left1 == @L0 : rd_left1 + 1 == @L0)))
+  __CPROVER_loop_invariant(rd_curkey == @K0 && g_kseen == @S0 && rd_indef1 == @I0)
+''' % {'lv': lv, 'G': G, 'rec': rec}}
+    return gen
+
+
+def bti_stubs(ast, L, tf, lifted):
+    mems = bt_members(lifted)
+    out = {}
+    for lf in lifted:
+        m = re.match(r'CdnsDecoder__read_array__CdnsBlockRead__read_blocktables__(\d+)$', lf.cname)
+        if not m:
+            continue
+        mem, rec = mems[int(m.group(1))]
+        lv = 'cap->base.' + mem
+        out[lf.cname] = '''  if (g_exc) return;
+  if (nondet_bool()) { g_exc = nondet_bool() ? EXC_CdnsDecoderException : EXC_CdnsDecoderEnd; return; }
+  __CPROVER_assert(%(VP)s, "read_array instance called at a value position");
+  { unsigned long n = nondet_ulong(); __CPROVER_assume(n < (1UL << 60) && %(lv)s.n + n < (1UL << 31));   /* fewer than 2^31 entries per table */
+    __typeof__(%(lv)s.wv) fresh; if (%(lv)s.wi >= %(lv)s.n && %(lv)s.wi - %(lv)s.n < n) %(lv)s.wv = fresh; %(lv)s.n += n;
+    if (rd_curkey == g_K) { g_klast = n; g_kkind = K_ARRAY; g_aseen = 1; g_alen = n; }
+    rd_idx2 = n;
+    rd_value_done(); }''' % {'lv': lv, 'VP': VALPOS}
+    return out
+
+
+def bt_read_loops(ast, L, tf):
+    names = dict((n, t) for n, t in tf.locals)
+    if 'indef' not in names or 'length' not in names:
+        raise LowerError('read_blocktables: loop locals not found')
+    tabs = ' && '.join('this->base.%s.n < (1UL << 31)' % t for t in BU.TABLES)
+    return {1: '''
+  __CPROVER_assigns(__CPROVER_object_whole(this), length, %(curs)s, g_bt_adds, %(G)s)
+  __CPROVER_loop_invariant(g_exc == 0 && RD_IN_MAP && (rd_indef1 ? indef : (!indef && length == rd_left1)))
+  __CPROVER_loop_invariant(g_kseen <= rd_cnt1 && rd_cnt1 <= (1UL << 60))
+  __CPROVER_loop_invariant(%(tabs)s)
+%(perkey)s''' % {'G': G, 'curs': BTCURS, 'tabs': tabs,
+       'perkey': ''.join('  __CPROVER_loop_invariant(g_K == %d ==> (g_kseen == 0 ? this->base.%s.n == @T0_%s : (g_kseen == 1 ==> (g_aseen && this->base.%s.n == @T0_%s + g_alen))))\n' % (BU.TKEY[t], t, t, t, t) for t in BU.TABLES)}}
+
+
+BTR_C = '''
+__CPROVER_requires(__CPROVER_w_ok($this, sizeof(*$this)) && g_exc == 0 && RD_FRESH)
+__CPROVER_requires(''' + ' && '.join('$this->base.%s.n < (1UL << 31)' % t for t in BU.TABLES) + ''')
+__CPROVER_assigns(__CPROVER_object_whole($this), ''' + BTCURS + ''', g_bt_adds, ''' + G + ''')
+__CPROVER_ensures(g_exc == 0 || g_exc == EXC_CdnsDecoderException || g_exc == EXC_CdnsDecoderEnd)
+__CPROVER_ensures(g_exc == 0 ==> RD_MAP_DONE)
+''' + ''.join('__CPROVER_ensures((g_exc == 0 && g_K == %d) ==> (g_kseen == 0 ? $this->base.%s.n == @T0_%s : (g_kseen == 1 ==> (g_aseen && $this->base.%s.n == @T0_%s + g_alen))))\n' % (BU.TKEY[t], t, t, t, t) for t in BU.TABLES)
+BTI_STUBS = R.DEC_STUBS + ['BlockTable_[A-Za-z]+__(size|op_index|find|add|add_value__p_[A-Za-z]+|clear)']
+for k in range(1, 10):
+    UNITS.append(Unit('rabt.%d' % k, ('CdnsBlockRead::read_blocktables', None), lifted_target=r'CdnsDecoder__read_array__CdnsBlockRead__read_blocktables__%d' % k,
+                      contract=bti_contract(k), loops=bti_loops(k), prelude=P, extern_records=R.EXT, stubs=BTI_STUBS, gen_stubs=R.NESTED_RD, arrays_uf=False,
+                      ghost=GH_I + [('unsigned long', 'N0', None)], auto_inline=AUTO, extra_c='struct seq_u8 g_OpCodesDefault; struct seq_u16 g_RrTypesDefault;\n',
+                      setup='  static struct CdnsBlockRead obj; struct CdnsDecoder dec;\n  __CPROVER_assume(%s);\n' % VALPOS,
+                      args=['&dec', '&obj'], props=['C01', 'C08', 'C03'], timeout=900, post='  if (g_exc != 0) { CANARY("decoder exception reachable"); }',
+                      note='the real CdnsDecoder::read_array body bound to the k-th table callback of read_blocktables: every delivered entry is appended with add_value, '
+                           'so entry j of the array gets index (old size + j)'))
+UNITS.append(Unit('rdb.read_blocktables', ('CdnsBlockRead::read_blocktables', None), contract=BTR_C, loops=bt_read_loops, prelude=P, extern_records=R.EXT,
+                  stubs=BTI_STUBS, gen_stubs=R.NESTED_RD, arrays_uf=False, auto_inline=AUTO, lifted_stub=bti_stubs, split=False,
+                  ghost=[('unsigned long', 'T0_' + t, '$this->base.%s.n' % t) for t in BU.TABLES],
+                  extra_c='struct seq_u8 g_OpCodesDefault; struct seq_u16 g_RrTypesDefault;\n',
+                  setup='  static struct CdnsBlockRead obj; struct CdnsDecoder dec;\n  rd_init();\n  __CPROVER_assume(' + ' && '.join('obj.base.%s.n < (1UL << 31)' % t for t in BU.TABLES) + ');\n',
+                  args=['&obj', '&dec'], props=['C08', 'C01', 'C03'], timeout=1800, post='  if (g_exc != 0) { CANARY("decoder exception reachable"); }',
+                  note='tables map with any number of entries in any order (unknown, negative, repeated keys), definite or indefinite: consumed exactly; each known key '
+                       'reads one array into its table; every other value is skipped as one item'))
